@@ -61,6 +61,13 @@ def gen_inputs(ctx):
             out.append(("PrivCtor", {"form": form, "v": B(v)}, ("ctor-bad-length", form, n < 32)))
             if n in (31, 33):
                 out.append(("PrivCtor", {"form": form, "v": B(b"\x00" * (n - 1) + b"\x01")}, ("ctor-bad-length-small", form, n)))
+    # wrong-LENGTH byte strings whose numeric value is a valid key that was used earlier in the same process
+    for k, kc in rng.sample(ks, 4 if q else 30):
+        kb = k.to_bytes(32, "big")
+        for v, c in ((b"\x00" + kb, "33"), (b"\x00\x00" + kb, "34"), (kb.lstrip(b"\x00")[:31] if kb[0] == 0 else (k >> 8).to_bytes(31, "big"), "31"),
+                     (kb[1:] if kb[0] == 0 else kb[:31], "31b")):
+            for form in ("bytes", "parse"):
+                out.append(("PrivCtor", {"form": form, "v": B(v), "warm": True}, ("ctor-bad-length-after-valid-twin", form, c)))
     # WIF payloads that are malformed but correctly checksummed
     for ver in (0x80, 0xef):
         for body, c in ((b"", "empty"), (b"\x01" * 31, "31"), (b"\x01" * 33, "33-no-flag"), (b"\x01" * 32 + b"\x02", "flag=2"),
